@@ -47,6 +47,8 @@ struct RunOut {
     fault_hit: bool,
     target_pushed: usize,
     target_pulled: usize,
+    /// (interleaved stratum) was the target's update already on the server when the other replica got in?
+    target_on_chain: bool,
 }
 
 fn invariant_of(d: &Dump, chain: &ChainRef, who: &str) -> Result<(), String> {
@@ -65,7 +67,7 @@ fn invariant_of(d: &Dump, chain: &ChainRef, who: &str) -> Result<(), String> {
 
 /// Run `prior`, then the target sync of replica 0 under `fault` (and `extra_faults` on the next
 /// attempts), then recover and quiesce.
-fn run_once(prior: &[Act], n: usize, kind0: StoreKind, faults: &[Fault]) -> Result<RunOut, (String, String)> {
+fn run_once(prior: &[Act], n: usize, kind0: StoreKind, faults: &[Fault], interleave: u8) -> Result<RunOut, (String, String)> {
     let chain = ChainRef::new();
     let mut reps: Vec<R> = (0..n).map(|i| new_replica(i, if i == 0 { kind0 } else { StoreKind::Mem }, &chain)).collect();
     let fail = |s: &str, m: String| (s.to_string(), m);
@@ -79,6 +81,21 @@ fn run_once(prior: &[Act], n: usize, kind0: StoreKind, faults: &[Fault]) -> Resu
         }
     }
     let v0 = chain.0.borrow().versions.len();
+    // one of the target's pending property updates (for the interleaved stratum)
+    let target_update: Option<(Uuid, String, chrono::DateTime<chrono::Utc>)> = reps[0].ctl.last().unsynced.iter().rev().find_map(|o| match o {
+        taskchampion::Operation::Update { uuid, property, value: Some(_), timestamp, .. } => Some((*uuid, property.clone(), *timestamp)),
+        _ => None,
+    });
+    let mut target_on_chain = false;
+    if interleave == 2 && n >= 2 {
+        // alternate reference: the other replica's change happens *before* the target sync
+        if let Some((u, prop, t)) = target_update.clone() {
+            sync(&mut reps[1], &chain, false).map_err(|e| fail("harness", format!("interleaved sync: {e:#}")))?;
+            let ops = concretise(&mut reps[1].rep, &[AbsOp::Set(u, prop, "R1-late".into(), t - chrono::Duration::seconds(1))]).map_err(|e| fail("harness", e))?;
+            block_on(reps[1].rep.commit_operations(ops)).map_err(|e| fail("harness", e.to_string()))?;
+            sync(&mut reps[1], &chain, false).map_err(|e| fail("harness", format!("interleaved sync: {e:#}")))?;
+        }
+    }
     let mut storage_calls = 0;
     let mut server_requests = 0;
     let mut names = vec![];
@@ -132,6 +149,22 @@ fn run_once(prior: &[Act], n: usize, kind0: StoreKind, faults: &[Fault]) -> Resu
             reps[0].ctl = ctl;
             reps[0].dir = Some(dir);
         }
+        // Optionally another replica gets in between the (possibly interrupted) first attempt and
+        // the retry: it pulls whatever reached the server, then overrides one of the target's
+        // properties with an *earlier* timestamp (a causally later change), and pushes.
+        if interleave == 1 && idx == 0 && n >= 2 {
+            if let Some((u, prop, t)) = target_update.clone() {
+                target_on_chain = {
+                    let c = chain.0.borrow();
+                    (v0..c.versions.len()).any(|k| c.versions[k].client == 0 && c.ops_of(k).iter().any(|o| matches!(o, model::MOp::Update { uuid, prop: p2, ts, .. } if *uuid == u && *p2 == prop && *ts == t)))
+                };
+                chain.0.borrow_mut().faults.clear();
+                sync(&mut reps[1], &chain, false).map_err(|e| fail("harness", format!("interleaved sync: {e:#}")))?;
+                let ops = concretise(&mut reps[1].rep, &[AbsOp::Set(u, prop, "R1-late".into(), t - chrono::Duration::seconds(1))]).map_err(|e| fail("harness", e))?;
+                block_on(reps[1].rep.commit_operations(ops)).map_err(|e| fail("harness", e.to_string()))?;
+                sync(&mut reps[1], &chain, false).map_err(|e| fail("harness", format!("interleaved sync: {e:#}")))?;
+            }
+        }
         // stored data satisfies the replica invariant immediately after the interruption
         let d = reps[0].ctl.last();
         invariant_of(&d, &chain, "replica 0").map_err(|e| fail(if matches!(f, Fault::None) { "invariant-after-sync" } else { "invariant-after-fault" }, e))?;
@@ -173,7 +206,7 @@ fn run_once(prior: &[Act], n: usize, kind0: StoreKind, faults: &[Fault]) -> Resu
         }
     }
     let versions = chain.0.borrow().versions.len();
-    Ok(RunOut { final_tasks, storage_calls, server_requests, names, versions, dup_ops: dup, fault_hit, target_pushed, target_pulled })
+    Ok(RunOut { final_tasks, storage_calls, server_requests, names, versions, dup_ops: dup, fault_hit, target_pushed, target_pulled, target_on_chain })
 }
 
 fn gen_prior(rng: &mut Rng, n: usize, big: bool) -> Vec<Act> {
@@ -203,14 +236,15 @@ fn gen_prior(rng: &mut Rng, n: usize, big: bool) -> Vec<Act> {
     h
 }
 
-fn sweep(tag: &'static str, i: u64, seed: u64, big: bool, sqlite: bool, seqs: bool, out: &mut CaseOut) {
+fn sweep(tag: &'static str, i: u64, seed: u64, big: bool, sqlite: bool, seqs: bool, interleave: bool, out: &mut CaseOut) {
+    let mode: u8 = if interleave { 1 } else { 0 };
     let mut rng = Rng::derive(seed, tag, i);
     let n = 2 + rng.below(2);
     let prior = gen_prior(&mut rng, n, big);
     let kind0 = if sqlite { StoreKind::Sqlite } else { StoreKind::Mem };
     let replay = json!({"stratum": tag, "index": i, "prior": show_history(&prior)});
     out.evaluations = 0;
-    let reference = match run_once(&prior, n, kind0, &[]) {
+    let reference = match run_once(&prior, n, kind0, &[], mode) {
         Ok(r) => r,
         Err((sig, msg)) => {
             if sig == "harness" {
@@ -222,6 +256,17 @@ fn sweep(tag: &'static str, i: u64, seed: u64, big: bool, sqlite: bool, seqs: bo
         }
     };
     out.evaluations += 1;
+    let reference_before = if interleave {
+        match run_once(&prior, n, kind0, &[], 2) {
+            Ok(r) => r,
+            Err((_, msg)) => {
+                out.inconclusive = Some(format!("alternate reference run failed: {msg}"));
+                return;
+            }
+        }
+    } else {
+        RunOut { final_tasks: Tasks::new(), storage_calls: 0, server_requests: 0, names: vec![], versions: 0, dup_ops: 0, fault_hit: false, target_pushed: 0, target_pulled: 0, target_on_chain: false }
+    };
     if reference.target_pushed == 0 || reference.target_pulled == 0 {
         // the target sync must both pull and push to be interesting; count it but do not sweep
         out.count("targets_without_both_directions", 1);
@@ -257,12 +302,15 @@ fn sweep(tag: &'static str, i: u64, seed: u64, big: bool, sqlite: bool, seqs: bo
     let mut hit = 0u64;
     for faults in &plan {
         out.evaluations += 1;
-        match run_once(&prior, n, kind0, faults) {
+        match run_once(&prior, n, kind0, faults, mode) {
             Ok(r) => {
                 if r.fault_hit {
                     hit += 1;
                 }
-                if r.final_tasks != reference.final_tasks {
+                // interleaved stratum: which fault-free run is the yardstick depends on whether the
+                // target's update had reached the server when the other replica got in
+                let yard = if interleave && !r.target_on_chain { &reference_before } else { &reference };
+                if r.final_tasks != yard.final_tasks {
                     let f0 = faults[0];
                     let class = match f0 {
                         Fault::Storage(_, FaultKind::Err) => "storage-error",
@@ -278,7 +326,7 @@ fn sweep(tag: &'static str, i: u64, seed: u64, big: bool, sqlite: bool, seqs: bo
                     };
                     let mut rp = replay.clone();
                     rp["faults"] = json!(format!("{faults:?}"));
-                    out.violate(format!("result-differs/{class}"), format!("after faults {faults:?} at {where_} the converged state differs from the uninterrupted run: {}", model::diff_tasks(&r.final_tasks, &reference.final_tasks)), rp);
+                    out.violate(format!("result-differs/{class}"), format!("after faults {faults:?} at {where_} the converged state differs from the uninterrupted run: {}", model::diff_tasks(&r.final_tasks, &yard.final_tasks)), rp);
                     return;
                 }
                 out.count("duplicate_ops_on_chain", r.dup_ops.saturating_sub(reference.dup_ops));
@@ -339,14 +387,14 @@ pub fn run(ctx: &Ctx) -> Outcome {
             out.evaluations = 0;
             let prior = corpus_prior();
             let replay = json!({"stratum": "corpus", "index": 0});
-            match run_once(&prior, 2, StoreKind::Mem, &[]) {
+            match run_once(&prior, 2, StoreKind::Mem, &[], 0) {
                 Ok(reference) => {
                     out.evaluations += 1;
                     out.count("multi_batch_targets", (reference.target_pushed >= 2) as u64);
                     for j in 1..=reference.server_requests {
                         for kind in [SrvFault::Before, SrvFault::After] {
                             out.evaluations += 1;
-                            match run_once(&prior, 2, StoreKind::Mem, &[Fault::Server(j, kind)]) {
+                            match run_once(&prior, 2, StoreKind::Mem, &[Fault::Server(j, kind)], 0) {
                                 Ok(r) if r.final_tasks == reference.final_tasks => {}
                                 Ok(r) => {
                                     out.violate("result-differs/server-fault-multi-batch".to_string(), format!("fault at request {j} ({kind:?}): {}", model::diff_tasks(&r.final_tasks, &reference.final_tasks)), replay.clone());
@@ -370,7 +418,7 @@ pub fn run(ctx: &Ctx) -> Outcome {
         let (lo, hi) = range(ctx.tier.pick(40, 2000));
         run_cases(&mut acc, "c04-sweep", hi - lo, |i| {
             let mut out = CaseOut::new();
-            sweep("c04-sweep", i + lo, seed, false, false, false, &mut out);
+            sweep("c04-sweep", i + lo, seed, false, false, false, false, &mut out);
             out
         });
         if only.is_none() && !acc.truncated {
@@ -381,7 +429,7 @@ pub fn run(ctx: &Ctx) -> Outcome {
         let (lo, hi) = range(ctx.tier.pick(6, 200));
         run_cases(&mut acc, "c04-big", hi - lo, |i| {
             let mut out = CaseOut::new();
-            sweep("c04-big", i + lo, seed, true, false, false, &mut out);
+            sweep("c04-big", i + lo, seed, true, false, false, false, &mut out);
             out
         });
     }
@@ -389,7 +437,17 @@ pub fn run(ctx: &Ctx) -> Outcome {
         let (lo, hi) = range(ctx.tier.pick(6, 300));
         run_cases(&mut acc, "c04-sqlite", hi - lo, |i| {
             let mut out = CaseOut::new();
-            sweep("c04-sqlite", i + lo, seed, false, true, false, &mut out);
+            sweep("c04-sqlite", i + lo, seed, false, true, false, false, &mut out);
+            out
+        });
+    }
+    if want("c04-interleaved") {
+        // another replica syncs, overrides one of the target's properties with an earlier timestamp
+        // and pushes between the (interrupted) first attempt and the retry
+        let (lo, hi) = range(ctx.tier.pick(30, 1500));
+        run_cases(&mut acc, "c04-interleaved", hi - lo, |i| {
+            let mut out = CaseOut::new();
+            sweep("c04-interleaved", i + lo, seed, false, false, false, true, &mut out);
             out
         });
     }
@@ -397,7 +455,7 @@ pub fn run(ctx: &Ctx) -> Outcome {
         let (lo, hi) = range(ctx.tier.pick(40, 3000));
         run_cases(&mut acc, "c04-sequences", hi - lo, |i| {
             let mut out = CaseOut::new();
-            sweep("c04-sequences", i + lo, seed, false, false, true, &mut out);
+            sweep("c04-sequences", i + lo, seed, false, false, true, false, &mut out);
             out
         });
     }
@@ -408,7 +466,7 @@ pub fn run(ctx: &Ctx) -> Outcome {
     }
     Outcome {
         level: "fault_enumeration",
-        rule: "for each seeded history (2-3 replicas; target sync of replica 0 with incoming and outgoing versions; big-value stratum with several batches; SQLite stratum where a stop also reopens the database in a fresh handle): fault-free reference run, then one re-run per storage call x {error, stop} and per server request x {fail before, perform then lose reply}, plus a stratum of random sequences of 1-3 consecutive faults; evaluations = runs (reference + faulted); non-trivial = target sync both pulled and pushed; distinct by prior history".into(),
+        rule: "for each seeded history (2-3 replicas; target sync of replica 0 with incoming and outgoing versions; big-value stratum with several batches; SQLite stratum where a stop also reopens the database in a fresh handle): fault-free reference run, then one re-run per storage call x {error, stop} and per server request x {fail before, perform then lose reply}, plus a stratum of random sequences of 1-3 consecutive faults, and a stratum in which another replica pulls, overrides one of the target's properties with an earlier timestamp and pushes between the interrupted attempt and the retry; evaluations = runs (reference + faulted); non-trivial = target sync both pulled and pushed; distinct by prior history".into(),
         exhaustive: None,
         acc,
         assumptions: vec![
